@@ -8,6 +8,7 @@ under two different fillings of "uninitialised" memory (numpy.empty poisoned), p
 random histories over many inputs.  Every recorded call of a public function - top level or
 nested - becomes a record (argument digests before/after, call key, outcome digest) and
 Trace_Session judges them: argument-modified / same-call-different-outcome."""
+import copy
 import hashlib
 import json
 import random
@@ -138,6 +139,15 @@ def util_bundle(me, rng):
         (u.midi_to_hz, (np.array([57.0, 69.0]),), {}),
         (me.chord.merge_chord_intervals, (iv, [rng.choice(["C", "C:maj", "G"]) for _ in labs]), {}),
         (me.chord.encode_many, (["C:maj", "G:min7/b3", "N"],), {}),
+        # extended shorthands with and without explicit degrees, before and after one another
+        (me.chord.encode, ("D:9",), {"reduce_extended_chords": True}),
+        (me.chord.encode, ("F:maj13",), {"reduce_extended_chords": True}),
+        (me.chord.split, ("C:9(13)",), {"reduce_extended_chords": True}),
+        (me.chord.encode, ("A:min11(*b3,#4)/5",), {"reduce_extended_chords": True}),
+        (me.chord.encode, ("E:maj13(*3)",), {"reduce_extended_chords": True}),
+        (me.chord.encode, ("D:9",), {"reduce_extended_chords": True}),
+        (me.chord.encode, ("F:maj13",), {"reduce_extended_chords": True}),
+        (me.chord.encode_many, (["D:9", "B:min11", "F:maj13"], True), {}),
         (me.chord.rotate_bitmaps_to_roots, (np.eye(12, dtype=int)[:3], np.array([1, 5, 11])), {}),
         (me.melody.freq_to_voicing, (np.array([0.0, 220.0, -110.0]), np.array([1.0, 0.5, 0.25])), {}),
         (me.melody.resample_melody_series, (np.arange(4) * 0.5, np.array([0.0, 100.0, 200.0, 0.0]),
@@ -194,8 +204,10 @@ def task_calls(t, args, kwv, alias):
             a = a[:h] + a[:h]
     a = tuple(a)
     kw_eval = {}
-    if kwv == 2 and t.kw_pool:
-        kw_eval = dict(t.kw_pool)
+    if kwv == 2:
+        # the keyword letter: evaluate() with every documented keyword of the task set to a non-default value
+        # (what an order-dependent keyword filter would get wrong); nothing else, to keep histories short
+        return [(t.evaluate, a, dict(t.kw_pool))]
     calls = [(t.evaluate, a, kw_eval)]
     if t.name == "melody":
         v = np.array([1.0, 0.5] * 20)[: len(a[3])]
@@ -304,7 +316,9 @@ def run(tier, seed):
             for k in range(n_inputs):
                 shape = t.shapes[k % len(t.shapes)]
                 args = t.gen(rng, shape)
-                bundles.append(task_calls(t, args, 1 + (k % 2), alias=(k % 7 == 3)))
+                bundles.append(task_calls(t, args, 1, alias=(k % 7 == 3)))
+                if k % 3 == 0:
+                    bundles.append(task_calls(t, args, 2, alias=False))
         for k in range(6 if thorough else 2):
             bundles.append(util_bundle(me, rng))
             bundles.append(sonify_bundle(me, rng))
@@ -317,6 +331,36 @@ def run(tier, seed):
         for k in reversed(order[: len(order) // (1 if thorough else 3)]):
             run_calls(bundles[k])
 
+    # ---- histories on FRESH interpreter state: module-level state (caches, tables) written by one task must not
+    # change what another task returns.  For every ordered pair (A, B) the library is re-imported, A.evaluate and then
+    # B.evaluate run with all their documented keywords; B's outcome is recorded under B's call key, so all
+    # predecessors (and "no predecessor") must give the same outcome.
+    names = sorted(T)
+    fresh = 0
+    for A in [None] + names:
+        m2 = import_mir_eval()
+        T2 = gen.catalogue(m2)
+        for B in names:
+            if A is not None:
+                ta = T2[A]
+                try:
+                    ta.evaluate(*copy.deepcopy(pool[(A, 1)]), **dict(ta.kw_pool))
+                except Exception:
+                    pass
+            tb = T2[B]
+            for kwb in (dict(tb.kw_pool), {}):
+                args = copy.deepcopy(pool[(B, 1)])
+                try:
+                    out = ("ret", tb.evaluate(*args, **kwb))
+                except Exception as ex:  # noqa
+                    out = ("exc", type(ex).__name__)
+                key = hashlib.md5(("fresh:" + B + str(sorted(kwb))).encode()).digest()
+                fresh += 1
+                records.append({"fn": B + ".evaluate", "names": [], "_desc": {"after": str(A), "kwargs": str(kwb), "->": repr(out)[:300]},
+                                "pre": [], "post": [], "key": interner_k(key), "out": interner_o(digest(out)), "n": 1})
+            if A is None:
+                continue
+    me = import_mir_eval()
     groups = {}
     for idx, r in enumerate(records):
         groups.setdefault(r["key"], []).append(idx + 1)
@@ -326,6 +370,7 @@ def run(tier, seed):
     ev.tlc("Trace_Session", st, "verdict on every distinct recorded call and every call group")
     ev.cov["traces_validated_against_impl"] = stats["public"]
     ev.cov["histories_executed"] = n_hist
+    ev.cov["fresh_state_history_calls"] = fresh
     ev.cov["recorded_events_total"] = stats["events"]
     ev.cov["distinct_call_records"] = len(records)
     ev.cov["call_groups_with_repeats"] = sum(1 for m in groups.values() if len(m) > 1 or records[m[0] - 1]["n"] > 1)
